@@ -503,7 +503,9 @@ package lang
 //@   ensures[C12] message: result.Message == msg
 //@   modifies nothing
 
-//@ func Evaluator.evalExpr [C01,C02,C04,C07,C08,C09,C11,C13,C15,C19,C20]
+//@ ghost $keyErr bool
+//@ ghost $cpErr bool
+//@ func Evaluator.evalExpr [C01,C02,C04,C07,C08,C09,C11,C12,C13,C15,C19,C20]
 //@   modifies valueHeap, e.stackTop, e.returnVal, e.evalDepth
 //@   ensures[C20] depth-restored: e.evalDepth == old(e.evalDepth)
 //@   requires evOK(e) && expr != nil && !$faulted
@@ -525,6 +527,11 @@ package lang
 //@   init $calleeSeen = false
 //@   after Evaluator.evalExpr: $calleeSeen = true
 //@   assert[C07,C15] callee-and-receiver-are-evaluated-before-the-arguments: istype(expr, *ExprCall) ==> $calleeSeen @ Evaluator.evalExprList
+//@   init $keyErr = false
+//@   init $cpErr = false
+//@   after Evaluator.evalString: $keyErr = ret1 != nil
+//@   after copyValue: $cpErr = ret1 != nil
+//@   assert?[C12] a-fault-in-an-object-literal-is-reported-at-the-key-or-value-it-is-in: istype(expr, *ExprObject) ==> ($keyErr ==> arg1 == kv.KeyToken) && ($cpErr ==> arg1 == smt("im_Token", Token, kv.Value)) @ Evaluator.error
 //@   init $keyDone = false
 //@   after Evaluator.evalString: $keyDone = true
 //@   after copyValue: $keyDone = false
@@ -539,7 +546,7 @@ package lang
 //@   ensures[C19] expression-body-yields-its-value: err == nil && istype(expr, *ExprMatch) && $nmatch == 1 && !$ranBlock ==> result0 == $lastCell
 //@   loop 1 invariant protocol: evInv(e, old(e.stackTop)) && $nmatch == 0 && !$ranBlock && e.evalDepth == old(e.evalDepth) + 1
 //@   loop 2 invariant in-match-frame: evOK(e) && e.stackTop == $frame && $frame.parent == old(e.stackTop) && !$faulted && $nmatch == 1 && !$ranBlock && e.evalDepth == old(e.evalDepth) + 1
-//@   loop 3 invariant protocol: evInv(e, old(e.stackTop)) && obj.Obj != nil && *obj.Obj != nil && e.evalDepth == old(e.evalDepth) + 1
+//@   loop 3 invariant protocol: evInv(e, old(e.stackTop)) && obj.Obj != nil && *obj.Obj != nil && e.evalDepth == old(e.evalDepth) + 1 && !$keyErr && !$cpErr
 
 //@ func Evaluator.evalStatement [C01,C02,C07,C08,C10,C11,C17,C20]
 //@   modifies valueHeap, e.stackTop, e.returnVal, e.evalDepth
@@ -1272,9 +1279,11 @@ package lang
 //@ func array [C01,C06]
 //@   implements parseRule.prefix
 
-//@ func object [C01,C06]
+//@ func object [C01,C06,C12]
 //@   implements parseRule.prefix
 //@   loop 0 invariant ok: parserOK(p) && p.inLoop == old(p.inLoop) && p.inFunction == old(p.inFunction) && p.depth == old(p.depth)
+//@   loop 0 invariant[C12] each-key-carries-its-own-token: forall k int :: 0 <= k && k < len(items) ==> (items[k].KeyToken.Tag == Str || items[k].KeyToken.Tag == Ident)
+//@   ensures[C12] each-key-carries-its-own-token: result1 == nil ==> istype(result0, *ExprObject) && (forall k int :: 0 <= k && k < len(as(result0, *ExprObject).Items) ==> (as(result0, *ExprObject).Items[k].KeyToken.Tag == Str || as(result0, *ExprObject).Items[k].KeyToken.Tag == Ident))
 
 //@ func match [C01,C06,C13]
 //@   implements parseRule.prefix
